@@ -152,6 +152,8 @@ class SpecCtx:
         ir = self.eng.ir
         if n in ir.alias:
             return ("pkg", ir.alias[n])
+        if n in ir.dep_alias:
+            return ("deppkg", n)
         # package-level const / var of current package
         if self.pkg:
             v = self.pkgmember(self.pkg, n)
@@ -181,6 +183,17 @@ class SpecCtx:
             return FuncV(fn=f["name"])
         return None
 
+    def dep_member(self, alias, n):
+        """package variable of a dependency, by the last element of its import path"""
+        st = self.entry if self.in_old else self.st
+        for path in self.eng.ir.dep_alias.get(alias, []):
+            gname = path + "." + n
+            if gname not in self.eng.global_types and gname in self.eng.ir.dep_vars:
+                self.eng.global_types[gname] = self.eng.ir.dep_vars[gname]
+            if gname in self.eng.global_types:
+                return self.eng.global_value(st, gname)
+        return None
+
     def select(self, a):
         st = self.entry if self.in_old else self.st
         base = self.eval(a[1])
@@ -189,6 +202,11 @@ class SpecCtx:
             v = self.pkgmember(base[1], name)
             if v is None:
                 raise SpecError("no member %s in %s" % (name, base[1]))
+            return v
+        if isinstance(base, tuple) and base and base[0] == "deppkg":
+            v = self.dep_member(base[1], name)
+            if v is None:
+                raise SpecError("no package variable %s.%s used by the code" % (base[1], name))
             return v
         if isinstance(base, PtrV):
             base = st.load(base)
@@ -262,7 +280,22 @@ class SpecCtx:
             return self.is_nil(x)
         if isinstance(x, tuple) and x and x[0] == "nil":
             return self.is_nil(y)
+        # auto-unbox: comparing an interface holding a known concrete value with a concrete value
+        if isinstance(x, IfaceV) and not isinstance(y, IfaceV):
+            x = x.dyn[1] if x.dyn is not None else self.unbox_like(x, y)
+        elif isinstance(y, IfaceV) and not isinstance(x, IfaceV):
+            y = y.dyn[1] if y.dyn is not None else self.unbox_like(y, x)
+        if isinstance(x, SliceV) and isinstance(y, SliceV) and x.nil is not True and y.nil is not True:
+            if self.pol != 1:
+                raise SpecError("slice equality may only be used in goal (positive) position")
+            return self.deep_eq(x, y)
         return to_bool(st.eq(x, y))
+
+    def unbox_like(self, iv, other):
+        t = other.t if isinstance(other, (StructV, PtrV, SliceV)) else self.leaf_types.get(other.get_id()) if is_z3(other) else None
+        if t is None:
+            raise SpecError("cannot compare interface with untyped value")
+        return self.eng.unbox(self.st, iv.ref, t)
 
     def deep_eq(self, a, b):
         """equality that also compares slice contents at a fresh (skolem) index: goal position only"""
@@ -351,6 +384,9 @@ class SpecCtx:
                     return self.eval(body)
                 finally:
                     self.bound = saved
+            if n == "elem":
+                x = self.eval(args[0])
+                return st.seq_read(x.seq, to_int(self.eval(args[1])), x.t)
             if n == "max":
                 x, y = to_int(self.eval(args[0])), to_int(self.eval(args[1]))
                 return z3.If(x > y, x, y)
@@ -497,12 +533,26 @@ class SpecCtx:
         return [e for e in self.trace if match_name(name, e.name)]
 
     def with_ev(self, ev, cond_ast):
-        prev = self.cur_ev
+        """evaluate a condition about one trace entry in the heap as it was when the call was made"""
+        prev, pst = self.cur_ev, self.st
         self.cur_ev = ev
+        if ev.snap is not None:
+            s2 = self.st.clone()
+            s2.heap = dict(ev.snap)
+            for k, v in self.st.heap.items():
+                s2.heap.setdefault(k, v)
+            self.st = s2
         try:
             return to_bool(self.eval(cond_ast))
         finally:
-            self.cur_ev = prev
+            if self.st is not pst:
+                # keep facts (range assumptions, lazily materialised cells) learned during evaluation
+                pst.pc.extend(self.st.pc[len(pst.pc):])
+                for k, v in self.st.heap.items():
+                    pst.heap.setdefault(k, v)
+                for k, v in self.st.symcells.items():
+                    pst.symcells.setdefault(k, v)
+            self.cur_ev, self.st = prev, pst
 
     def trace_builtin(self, n, args):
         st = self.st
